@@ -153,7 +153,7 @@ LeadOffer(cfg, m, w, firstOfWrite) ==
      THEN IF IsStartCandidate(cfg, cfg.lead, w)
           THEN [m EXCEPT !.startId = w.id, !.nlead = 1,
                          !.created = (cfg.variant = "mpegts"),
-                         !.expB = <<[id |-> w.id, dts |-> w.dts, ntp |-> w.ntp, ra |-> w.ra]>>,
+                         !.expB = <<[id |-> w.id, dts |-> w.dts, ntp |-> w.ntp, ra |-> w.ra, gen |-> gen2]>>,
                          !.segStart = w.dts, !.segCnt = 1, !.pendChg = FALSE, !.gen = gen2,
                          !.lq = <<[id |-> w.id, dts |-> w.dts, ra |-> w.ra, ntp |-> w.ntp]>>]
           ELSE [m EXCEPT !.gen = gen2]        \* units before the start point only update the parameters
@@ -163,7 +163,7 @@ LeadOffer(cfg, m, w, firstOfWrite) ==
                          \/ /\ w.dts - m.segStart >= cfg.segMin
                             \* audio-only MPEG-TS: only a Write call can start a segment, after MinAU calls
                             /\ (AudioOnlyTS(cfg) => (firstOfWrite /\ m.segCnt >= MinAU(cfg)))
-              e    == [id |-> w.id, dts |-> w.dts, ntp |-> w.ntp, ra |-> w.ra]
+              e    == [id |-> w.id, dts |-> w.dts, ntp |-> w.ntp, ra |-> w.ra, gen |-> gen2]
           IN [m EXCEPT !.nlead = m.nlead + 1,
                        !.created = TRUE,
                        !.gen = gen2,
@@ -214,7 +214,7 @@ SegFirstUnit(cfg, pfu, e) ==
 \* expected boundary unit of segment id k
 ExpBOf(cfg, m, k) ==
   LET j == k - FirstSegId(cfg) + 1 - m.expBase
-  IN IF j >= 1 /\ j <= Len(m.expB) THEN m.expB[j] ELSE [id |-> -1, dts |-> 0, ntp |-> 0, ra |-> 0]
+  IN IF j >= 1 /\ j <= Len(m.expB) THEN m.expB[j] ELSE [id |-> -1, dts |-> 0, ntp |-> 0, ra |-> 0, gen |-> 0]
 
 -----------------------------------------------------------------------------
 (* C02 / C03 on one playlist of the leading stream *)
@@ -232,6 +232,25 @@ C02Leading(cfg, m, pl) ==
           xb == ExpBOf(cfg, m, e.id)
       IN \* StartsRA + CutExactlyWhenDue: the segment begins with the unit the rule designates
          (fu > 0 /\ xb.id > 0) => (fu = xb.id /\ xb.ra = 1)
+
+\* C02 InitFollowsParams: the init segment declares exactly the stream's tracks with their timescales; once the
+\* first complete segment with changed parameters is listed and no change is pending it carries those parameters
+InitOK(cfg, m, lp, inits) ==
+  \A s \in 1..NS(cfg) :
+    LET it == inits[s]
+        ts == cfg.streams[s].tracks
+        real == IF lp.ok = 1 THEN RealEntries(lp) ELSE <<>>
+        xb == IF real = <<>> THEN [id |-> -1, gen |-> 0] ELSE ExpBOf(cfg, m, Last(real).id)
+    IN /\ it.ok \in {0, 1}
+       /\ (it.ok = 1) =>
+            /\ it.ct = 1
+            /\ Len(it.tracks) = Len(ts)
+            /\ \A i \in 1..Len(ts) :
+                 /\ it.tracks[i].t = ts[i]
+                 /\ it.tracks[i].scale = cfg.tracks[ts[i]].rate
+                 \* "no further change pending": the parameters written last are those the last listed segment began with
+                 /\ (cfg.tracks[ts[i]].k = "v" /\ ~m.pendChg /\ xb.id > 0 /\ m.gen = xb.gen) => it.tracks[i].gen = xb.gen
+                 /\ (cfg.tracks[ts[i]].k = "a") => it.tracks[i].gen = 1
 
 C03Entry(cfg, m, pl, e) ==
   LET xb == ExpBOf(cfg, m, e.id)
@@ -462,7 +481,8 @@ MonStep(cfg, m, w, want) ==
              /\ \A t \in 1..NT(cfg) : r[t].ok
              /\ complete
       c02 == IF "c02" \notin want THEN TRUE ELSE
-             served(cfg.leadStream) => C02Leading(cfg, m2, lp)
+             /\ served(cfg.leadStream) => C02Leading(cfg, m2, lp)
+             /\ (HasField(w, "init") /\ cfg.variant # "mpegts") => InitOK(cfg, m2, lp, w.init)
       c03 == IF "c03" \notin want THEN TRUE ELSE
              \A s \in 1..NS(cfg) : served(s) =>
                 /\ C03Playlist(cfg, m2, cps[s], s = cfg.leadStream)
